@@ -30,6 +30,8 @@ pub struct Cfg {
     pub seg_size: u64,
     /// adversarial device: the I/O workers deliver the completions of a burst newest first
     pub io_reverse: bool,
+    /// forgetful leaf cache: 0 off, 1 odd page numbers miss, 2 even ones, 3 every second lookup
+    pub leaf_amnesia: u8,
 }
 
 impl Default for Cfg {
@@ -49,6 +51,7 @@ impl Default for Cfg {
             preallocate: false,
             seg_size: 0,
             io_reverse: false,
+            leaf_amnesia: 0,
         }
     }
 }
@@ -68,7 +71,7 @@ impl Cfg {
         json!({"buckets": self.buckets, "seed": self.seed, "cc": self.cc, "io_workers": self.io_workers,
                "rollback": self.rollback, "log_len": self.log_len, "warm_up": self.warm_up,
                "page_cache": self.page_cache, "leaf_cache": self.leaf_cache, "prepopulate": self.prepopulate,
-               "upper_levels": self.upper_levels, "preallocate": self.preallocate, "seg_size": self.seg_size, "io_reverse": self.io_reverse})
+               "upper_levels": self.upper_levels, "preallocate": self.preallocate, "seg_size": self.seg_size, "io_reverse": self.io_reverse, "leaf_amnesia": self.leaf_amnesia})
     }
     pub fn from_json(v: &Value) -> Self {
         let d = Cfg::default();
@@ -89,6 +92,7 @@ impl Cfg {
             preallocate: b("preallocate", d.preallocate),
             seg_size: u("seg_size", d.seg_size),
             io_reverse: b("io_reverse", d.io_reverse),
+            leaf_amnesia: u("leaf_amnesia", d.leaf_amnesia as u64) as u8,
         }
     }
     pub fn options(&self, dir: &Path) -> Options {
@@ -162,6 +166,7 @@ pub fn open_nomt_retry<H: HashAlgorithm>(dir: &Path, cfg: &Cfg, secs: u64) -> an
 pub fn open_nomt<H: HashAlgorithm>(dir: &Path, cfg: &Cfg) -> anyhow::Result<Nomt<H>> {
     nomt::verif::knobs::set_rollback_segment_size(cfg.seg_size);
     nomt::verif::io::set_reverse_completions(cfg.io_reverse);
+    nomt::verif::knobs::set_leaf_cache_amnesia(cfg.leaf_amnesia);
     Nomt::<H>::open(cfg.options(dir))
 }
 
